@@ -1021,6 +1021,12 @@ def _(E, c):
             d = BigV(0)
         elif isinstance(old, VecV):
             d = VecV([], old.ty)
+        elif ty:
+            # a type whose Default is defined in the repository (derive or impl): run it
+            try:
+                d = E.do_call(c.frame, '<%s as Default>::default' % ty, [], ty)
+            except Inconclusive:
+                raise Inconclusive('mem::take of %r' % (old,))
         else:
             raise Inconclusive('mem::take of %r' % (old,))
     E.store(c.args[0], d)
